@@ -36,7 +36,7 @@ class Analysis:
         P = ctx.P
         self.P = P
         self.fi = fi = P.func(GCV)
-        self.alg = mk_algebra()
+        self.alg = mk_algebra(rewrite=_norm_len)
         args = {}
         context = {'return_good': return_good}
         if not mask_given:
@@ -141,6 +141,19 @@ class Analysis:
         if rest.is_const() and rest.const_value().denominator == 1 and b.denominator == 1:
             return Aff(int(rest.const_value()), int(b))
         return None
+
+
+def _norm_len(t):
+    """Number of samples of a column is the number of rows of the array it was cut from:
+    X[:, i].shape[0] == X.shape[0] ;  len(v) == v.shape[0]."""
+    if t[0] == 'sub' and t[2] == C(0) and t[1][0] == 'attr' and t[1][2] == 'shape':
+        base = t[1][1]
+        if base[0] == 'sub' and base[2][0] == 'tuple' and len(base[2][1]) == 2 and base[2][1][0][0] == 'slice' \
+                and all(is_c(x) and x[1] is None for x in base[2][1][0][1:4]):
+            return ('sub', ('attr', base[1], 'shape'), C(0))
+    if t[0] == 'call' and t[1] == 'builtins.len' and len(t[2]) == 1 and t[2][0][0] in ('sub', 's', 'call'):
+        return ('sub', ('attr', t[2][0], 'shape'), C(0))
+    return None
 
 
 def get(ctx, return_good, mask_given):
